@@ -311,6 +311,32 @@ fn eval_case_inner(line: &str) -> String {
                 Some(Err(e)) => str_ferr(&e),
             }
         }
+        "NEWZ" => {
+            // NEWZ len: Data::try_new over a block far too large to fill (a zeroed reservation that is never touched),
+            // once borrowed and once owned.  If this machine cannot reserve the address space the case is unavailable.
+            let n: usize = num(t[1]);
+            let layout = match std::alloc::Layout::array::<u8>(n) {
+                Ok(l) if n > 0 => l,
+                _ => return "UNAVAILABLE".to_string(),
+            };
+            let ptr = unsafe { std::alloc::alloc_zeroed(layout) };
+            if ptr.is_null() {
+                return "UNAVAILABLE".to_string();
+            }
+            let verdict = |r: Option<Result<(), flipdot_core::FrameError>>| match r {
+                None => "PANIC".to_string(),
+                Some(Ok(())) => "OK".to_string(),
+                Some(Err(e)) => str_ferr(&e),
+            };
+            let borrowed = {
+                let slice: &[u8] = unsafe { std::slice::from_raw_parts(ptr, n) };
+                verdict(guarded(|| Data::try_new(slice).map(|_| ())))
+            };
+            // the vector takes the reservation over and gives it back when dropped
+            let v: Vec<u8> = unsafe { Vec::from_raw_parts(ptr, n, n) };
+            let owned = verdict(guarded(move || Data::try_new(v).map(|_| ())));
+            if borrowed == owned { borrowed } else { format!("{} BUT-OWNED {}", borrowed, owned) }
+        }
         "NEWS" => {
             // Is there a public conversion from a static array of this length into Data, and if so does it respect the
             // 255-byte limit?  (Which lengths have a conversion is part of the API and not the model's business; the
